@@ -127,6 +127,29 @@ Fixpoint wf_go (ph : list (N * N)) (tr : list ev) : bool :=
   end.
 Definition wf (tr : list ev) : bool := wf_go [] tr.
 
+(* a request may also end EARLY: its client goes away and net/http cancels ctx_r while the goroutine of r still runs
+   (it notices at its next statement or row).  Then r's own looks find ctx_r done; nobody else's may. *)
+Fixpoint wfc_go (ph : list (N * N)) (ended : list N) (tr : list ev) : bool :=
+  match tr with
+  | [] => true
+  | ESet r :: t => N.eqb (phase ph r) 0 && wfc_go ((r, 1%N) :: ph) ended t
+  | EQuerier r :: t => N.eqb (phase ph r) 1 && wfc_go ((r, 2%N) :: ph) ended t
+  | ELook r :: t => N.eqb (phase ph r) 2 && wfc_go ph ended t
+  | EEnd r :: t => negb (N.eqb (phase ph r) 0) && negb (existsb (N.eqb r) ended) && wfc_go ph (r :: ended) t
+  end.
+Definition wfc (tr : list ev) : bool := wfc_go [] [] tr.
+
+(* the specification as a function of the trace ALONE (no queryable, no querier): every look of r sees ctx_r, and sees it
+   done exactly when r itself has ended before *)
+Fixpoint spec_go (ended : list N) (tr : list ev) : list look_obs :=
+  match tr with
+  | [] => []
+  | ELook r :: t => (r, Some r, existsb (N.eqb r) ended) :: spec_go ended t
+  | EEnd r :: t => spec_go (r :: ended) t
+  | _ :: t => spec_go ended t
+  end.
+Definition spec_looks (tr : list ev) : list look_obs := spec_go [] tr.
+
 (* the specification, on one observation: a request reads under its own context, which nobody has cancelled *)
 Definition look_ok (o : look_obs) : bool :=
   match o with
@@ -152,8 +175,8 @@ Definition opt_eqb (a b : option N) : bool :=
 Definition obs_eqb (a b : look_obs) : bool :=
   N.eqb (fst (fst a)) (fst (fst b)) && opt_eqb (snd (fst a)) (snd (fst b)) && Bool.eqb (snd a) (snd b).
 Definition ocase_mismatch (c : ocase) : bool := negb (list_eqb obs_eqb (run false rs_init (oc_trace c)) (oc_obs c)).
-Definition ocase_spec_violation (c : ocase) : bool := negb (forallb look_ok (oc_obs c)).
-Definition ocase_not_wf (c : ocase) : bool := negb (wf (oc_trace c)).
+Definition ocase_spec_violation (c : ocase) : bool := negb (list_eqb obs_eqb (spec_looks (oc_trace c)) (oc_obs c)).
+Definition ocase_not_wf (c : ocase) : bool := negb (wfc (oc_trace c)).
 Definition overlap_mismatches (cs : list ocase) : list Z := map oc_id (filter ocase_mismatch cs).
 Definition overlap_spec_violations (cs : list ocase) : list Z := map oc_id (filter ocase_spec_violation cs).
 Definition overlap_not_wf (cs : list ocase) : list Z := map oc_id (filter ocase_not_wf cs).
